@@ -287,7 +287,7 @@ Qed.
 
 Lemma op_clone_from w i j w' out :
   WF w -> exec w (OCloneFrom i j) = (w', out) ->
-  (w' = w /\ out = Skip)
+  ((get_slot w j = None \/ i = j \/ get_slot w i = None) /\ w' = w /\ out = Skip)
   \/ (exists r src, i <> j /\ nth_error (pool w) i = Some (Some r) /\ nth_error (pool w) j = Some (Some src)
         /\ w' = set_slot w (wmem w') i (Some src) /\ out = OkUnit
         /\ step_ok (wmem w) (refs (pool w)) r (wmem w') src /\ nreq (wmem w') = nreq (wmem w)
